@@ -328,7 +328,16 @@ class Verdict:
             'wall_s': round(res.wall, 2), 'cmd': res.cmd,
             'coverage': {k: list(v) for k, v in res.coverage.items()}})
 
-    def violation(self, signature, record):
+    def violation(self, signature, record, rejob=None):
+        """rejob = (script, impl, job): the smallest child job that
+        re-executes the failing case (stored in the replay file, re-run by
+        `./check <id> --replay <file>` against a fresh build, without TLC:
+        the admissible sets TLC computed are inside the job)."""
+        if rejob is not None:
+            record = dict(record) if isinstance(record, dict) else \
+                {'record': record}
+            record['_rejob'] = {'script': rejob[0], 'impl': rejob[1],
+                                'job': rejob[2]}
         self.violations.append((signature, record))
 
     def sample(self, s, limit=6):
@@ -381,12 +390,53 @@ class Verdict:
             'violations': len(unknown),
         }
         ev['coverage']['known_findings_reported'] = sorted(reported)
+        if self.tier == 'replay':       # --replay never rewrites evidence
+            return rc
         evdir = os.environ.get('VERIF_EVIDENCE_DIR') or \
             os.path.join(VERIF, 'evidence')
         os.makedirs(evdir, exist_ok=True)
         with open(os.path.join(evdir, self.pid + '.json'), 'w') as f:
             json.dump(ev, f, indent=1, default=str)
         return rc
+
+
+def one_case(script, implv, job, m):
+    """rejob argument for Verdict.violation: the child's job narrowed to the
+    case the mismatch m came from."""
+    idx = m.get('case_idx') if isinstance(m, dict) else None
+    for key in ('cases', 'programs'):
+        if idx is not None and isinstance(job.get(key), list) and \
+                idx < len(job[key]):
+            j = dict(job)
+            j[key] = [job[key][idx]]
+            return (script, implv, j)
+    return None
+
+
+def replay_generic(pid, path):
+    """./check <id> --replay <file>: re-run the recorded child job against a
+    fresh build of /repo's working tree."""
+    with open(path) as f:
+        data = json.load(f)
+    rj = (data.get('record') or {}).get('_rejob')
+    if not rj:
+        print('replay file has no re-executable job: %s' % path)
+        return 2
+    v = Verdict(pid, 'replay')
+    with Build() as build:
+        r = run_children(build, rj['script'], [(rj['impl'], rj['job'])])[0]
+    if 'crash' in r:
+        v.violation('%s replay crashed with signal %s (%s)' % (
+            pid, r['crash'], rj['impl']), r)
+    for m in r.get('mismatches', []):
+        sig = '%s %s %s expected=%s got=%s' % (
+            pid, m.get('impl'), m.get('what'), json.dumps(m.get('expected')),
+            json.dumps(m.get('got')))
+        v.violation(sig, m, rejob=(rj['script'], rj['impl'], rj['job']))
+    rc = v.finish()
+    if rc == 0:
+        print('replay: the recorded case no longer fails (%s)' % path)
+    return rc
 
 
 def shard(items, n):
